@@ -317,6 +317,10 @@ Definition m_op (s o : omd) (op_ : op) : res (omd * out) :=
   | New a kw => do s1 <- m_new s o a kw; Ok (s1, none_out)
   | FromKeys ks d => Ok (m_from_pairs (map (fun k => (k, dflt d)) ks), none_out)
   | CopyOther _ => let c := m_from_pairs (m_items o) in Ok (c, OBool (m_eq_omd c o))
+  | CopyCyc c dst =>      (* the copy machinery rebuilds the object from its pair list; deep kinds copy the
+                             values with a memo, so references to the source become references to the copy *)
+      let deep := match c with CkDeepCopy | CkPickle => true | _ => false end in
+      Ok (m_from_pairs (map (fun p => (fst p, remap_ref deep dst (snd p))) (m_items o)), OBool true)
   | Items multi => if multi then Ok (s, OPairs (m_items s))
                    else do l <- m_items1 s; Ok (s, OPairs l)
   | Keys multi => Ok (s, OList (if multi then map c_key (ll s) else m_iterkeys s))
